@@ -158,6 +158,7 @@ def evaluate(sub, case, rec=None, record=True):
         TRACE.append(dict(subcheck=sub.name, case=json.loads(json.dumps(case, default=str))))
     # half of the cases (a pure function of the case) leave out every option whose value is the documented default
     defaults.ACTIVE = defaults.flag_for(case)
+    defaults.EXPLICIT = defaults.explicit_flag_for(case)
     try:
         sub.body(case, ctx)
     except Skip as s:
